@@ -83,6 +83,11 @@ def run(c, index, tier):
     n_jobs = getattr(c, "force_n_jobs", None) or n_jobs
     m = ch.integer("w", 1, 6, "m")
     Xq = numpy.vstack([X[: min(m, n)], rs.randn(m, d) * 2])
+    qtype = ch.weighted("w", [("float64", 4), ("int64", 2), ("float32", 1)], "query-dtype")
+    if qtype == "int64":
+        Xq = numpy.round(Xq * 3).astype(numpy.int64)  # count-like features
+    elif qtype == "float32":
+        Xq = Xq.astype(numpy.float32)
     g = ch.subseed("r", "global-seed")
     size = int(n * alpha + 0.5)
     c.scenario = {
@@ -95,6 +100,7 @@ def run(c, index, tier):
         "weights": w is not None,
         "n_jobs": n_jobs,
         "entropy": mode,
+        "query_dtype": qtype,
         "data_seed": data_seed,
     }
     c.signature = [n, alpha, n_est, local_name, w is not None, n_jobs, mode]
@@ -178,8 +184,11 @@ def run(c, index, tier):
             return
     if len(set(id(e) for e in ests)) != len(ests) or any(e is local for e in ests):
         _viol(c, seen, "record", ("shared-model",), "the fitted models are not distinct clones of the base estimator")
-    if mode == "adversarial" and size >= 2 and n >= 2:
-        # the seam returned both ends of every requested range
+    sampled = [q for q in reqs if q[0] in ("randint", "rand", "random_sample", "random")]
+    if mode == "adversarial" and size >= 2 and n >= 2 and sampled and len(sampled) == len(reqs):
+        # the seam returned both ends of every requested range (integer
+        # ranges and [0, 1) alike): the first and the last row must have
+        # been drawn by some model
         if 0 not in used or (n - 1) not in used:
             _viol(
                 c,
@@ -206,8 +215,9 @@ def run(c, index, tier):
     if pa.shape != (mq, n_est):
         _viol(c, seen, "aggregation", ("predict_all-shape",), "predict_all has shape %r, expected %r" % (pa.shape, (mq, n_est)))
         return
+    c.probe("query_" + qtype)
     for i, est in enumerate(ests):
-        if not U.arrays_equal(pa[:, i], numpy.asarray(est.predict(Xq)).ravel(), 1e-12, 1e-12):
+        if not U.arrays_equal(pa[:, i], numpy.asarray(est.predict(Xq), dtype=numpy.float64).ravel(), 1e-12, 1e-12):
             _viol(c, seen, "aggregation", ("predict_all-column",), "predict_all[:, %d] is not the prediction of model %d" % (i, i))
             break
     if p.shape != (mq,) or not numpy.allclose(p, pa.mean(axis=1), rtol=1e-12, atol=1e-12):
